@@ -495,9 +495,18 @@ func c05GenTuples(c *c05Case) (ins, del, by []*Tup) {
 		c05Subject(t, c.Shape, i)
 		ins = append(ins, t)
 	}
+	// requests that delete by exact tuple also delete TWINS: positions 4k+2 repeat
+	// object, relation and subject of position 4k+1 in the other namespace (an
+	// object's UUID does not depend on its namespace, so the two rows differ in the
+	// namespace column only); a pair never straddles a delete chunk (100)
+	twins := !strings.Contains(c.Path, "delete-query") && !strings.Contains(c.Path, "delete-subject")
 	for j := 0; j < c.NDel; j++ {
 		t := &Tup{Namespace: "m", Object: fmt.Sprintf("del-%d", j), Relation: "gone"}
 		c05Subject(t, c.Shape, j+1)
+		if twins && j%4 == 2 {
+			t = &Tup{Namespace: "n", Object: fmt.Sprintf("del-%d", j-1), Relation: "gone"}
+			c05Subject(t, c.Shape, j)
+		}
 		del = append(del, t)
 	}
 	for j := 0; j < 12; j++ {
